@@ -86,7 +86,7 @@ def run_tcp(ck, lab, svc, tier, cutsets_by_shape, rng):
         for cs in (tl if tier == "thorough" or len(tl) <= 40 else rng.sample(tl, 40)):
             plans.append(("landmarks", [bounds[c - 1] for c in sorted(cs)]))
         plans.append(("dribble", list(range(1, total))))
-        for _ in range(3 if tier == "quick" else 20):
+        for _ in range(3 if tier == "quick" else 60):
             k = rng.randint(2, 6)
             plans.append(("multi", sorted(rng.sample(range(1, total), min(k, total - 1)))))
         if len(reqs) > 1:
